@@ -36,7 +36,10 @@ def uncp(a):
 
 
 # ----------------------------------------------------------------------------------------
-# fresh processes: every history runs in a process in which no writer was ever constructed
+# first use: every history starts from the writer modules' initial state.  mode "fresh": a new process
+# (forked from one in which no writer was ever constructed); mode "reload": importlib.reload of the two
+# writer modules in a long-lived worker (much cheaper).  A sample of problems is run in both modes and
+# TLC compares the names (HistoryIndependent), so "reload = fresh process" is itself checked.
 # ----------------------------------------------------------------------------------------
 def _fresh(fn, arg):
     r, w = os.pipe()
@@ -67,6 +70,16 @@ def _task(task):
     return _fresh(_history, task)
 
 
+def _chunk(tasks):
+    out = []
+    for t in tasks:
+        try:
+            out.append(_history(t, reload=True))
+        except BaseException as ex:  # noqa
+            out.append({"crash": "%s: %s" % (type(ex).__name__, str(ex)[:500])})
+    return out
+
+
 def _read_keywords(_):
     import unified_planning.io.pddl_writer as pw
     import unified_planning.io.anml_writer as aw
@@ -94,25 +107,40 @@ def _warm():
 
 
 def run_tasks(tasks):
+    """results in task order.  The parent process never constructs a writer."""
     import multiprocessing as mp
 
     if not tasks:
         return []
     _warm()
-    with mp.get_context("fork").Pool(NWORK) as pool:
-        res = pool.map(_task, tasks, chunksize=8)
-        # a time-out on a busy machine is not a verdict: retry (a few) with a much longer limit
-        late = [i for i, r in enumerate(res) if "ops" in r and any(o["status"] == "timeout" for o in r["ops"])]
-        if late:
-            again = late if len(late) <= 40 else late[:6]
-            redo = []
-            for i in again:
-                t = dict(tasks[i])
-                t["limit"] = 10 * LIMIT
-                redo.append(t)
+    ctxm = mp.get_context("fork")
+    res = [None] * len(tasks)
+    fr = [i for i, t in enumerate(tasks) if t["kind"] == "kw" or t.get("mode") == "fresh"]
+    rl = [i for i, t in enumerate(tasks) if not (t["kind"] == "kw" or t.get("mode") == "fresh")]
+    if fr:
+        with ctxm.Pool(NWORK) as pool:
+            for i, r in zip(fr, pool.map(_task, [tasks[i] for i in fr], chunksize=4)):
+                res[i] = r
+    if rl:
+        size = max(1, min(64, len(rl) // (NWORK * 4) + 1))
+        chunks = [rl[k:k + size] for k in range(0, len(rl), size)]
+        with ctxm.Pool(NWORK) as pool:
+            for idx, rs in zip(chunks, pool.map(_chunk, [[tasks[i] for i in c] for c in chunks], chunksize=1)):
+                for i, r in zip(idx, rs):
+                    res[i] = r
+    # a time-out on a busy machine is not a verdict: retry (a few) in new processes with a much longer limit
+    late = [i for i, r in enumerate(res) if "ops" in r and any(o["status"] == "timeout" for o in r["ops"])]
+    if late:
+        again = late if len(late) <= 40 else late[:6]
+        redo = []
+        for i in again:
+            t = dict(tasks[i])
+            t["limit"] = 10 * LIMIT
+            redo.append(t)
+        with ctxm.Pool(NWORK) as pool:
             for i, r in zip(again, pool.map(_task, redo, chunksize=1)):
                 res[i] = r
-        return res
+    return res
 
 
 # ----------------------------------------------------------------------------------------
@@ -362,11 +390,11 @@ def align_pddl(h, problem, spaces, owner_of):
 
 
 def observe_pddl(problem, limit):
-    from unified_planning.io import PDDLWriter
+    import unified_planning.io.pddl_writer as pw
     from unified_planning.exceptions import UPException
 
     with time_limit(limit):
-        w = PDDLWriter(problem)
+        w = pw.PDDLWriter(problem)
         dom = w.get_domain()
         prob = w.get_problem()
     it, spaces = _collect(problem)
@@ -512,10 +540,10 @@ def harvest_anml(text):
 
 
 def observe_anml(problem, limit):
-    from unified_planning.io import ANMLWriter
+    import unified_planning.io.anml_writer as aw
 
     with time_limit(limit):
-        text = ANMLWriter(problem).get_problem()
+        text = aw.ANMLWriter(problem).get_problem()
     h = harvest_anml(text)
     bad = {"status": "harvest", "out": [text]}
     if h is None:
@@ -604,8 +632,14 @@ def _use_writer(lang, P, observe, limit):
     return rec
 
 
-def _history(task):
+def _history(task, reload=False):
+    import importlib
     import unified_planning.io.pddl_writer as pw
+    import unified_planning.io.anml_writer as aw
+
+    if reload:
+        importlib.reload(pw)
+        importlib.reload(aw)
 
     out = {"id": task["id"], "lang": task["lang"], "kwlen0": len(pw.GENERAL_PDDL_KEYWORDS), "ops": []}
     for st in task["steps"]:
@@ -964,19 +998,22 @@ def _strip(op):
 
 def assemble(ctx, results, plan, kwlen, stats):
     """results of the child processes -> judged traces.  plan[id] = (lang, key of the observed problem,
-    is_pristine).  The pristine (first-use) run of every problem supplies the `fresh` names."""
+    first use?, mode).  The first-use run of every problem (the one in a new process where there is one)
+    supplies the `fresh` names of every history that writes the same problem."""
     pristine = {}
     for r in results:
         if "crash" in r:
             raise MachineryError("child process failed: %s" % r["crash"])
         if r["kwlen0"] != kwlen:
-            raise MachineryError("a child process did not start with the pristine keyword set")
-        lang, key, first = plan[r["id"]]
+            raise MachineryError("a history did not start with the pristine keyword set")
+        lang, key, first, mode = plan[r["id"]]
         if first:
-            pristine[(lang, key)] = r["ops"][-1]
+            rank = 0 if mode == "fresh" else 1
+            if (lang, key) not in pristine or pristine[(lang, key)][0] > rank:
+                pristine[(lang, key)] = (rank, r["ops"][-1])
     traces = []
     for r in results:
-        lang, key, first = plan[r["id"]]
+        lang, key, first, mode = plan[r["id"]]
         last = r["ops"][-1]
         stats["%s:%s" % (lang, last["status"])] = stats.get("%s:%s" % (lang, last["status"]), 0) + 1
         if last["status"] == "timeout":
@@ -992,15 +1029,25 @@ def assemble(ctx, results, plan, kwlen, stats):
             continue
         if last["status"] != "ok":
             continue
-        fr = pristine.get((lang, key))
-        if fr is not None and fr["status"] == "ok" and len(fr["items"]) == len(last["items"]):
-            last["hasfresh"] = True
-            for a, b in zip(last["items"], fr["items"]):
-                a["fresh"] = b["name"]
-        elif not first:
+        fr = pristine.get((lang, key), (9, None))[1]
+        if fr is None or fr["status"] != "ok" or len(fr["items"]) != len(last["items"]):
             continue
+        last["hasfresh"] = True
+        for a, b in zip(last["items"], fr["items"]):
+            a["fresh"] = b["name"]
         traces.append({"id": r["id"], "lang": lang, "ops": [_strip(o) for o in r["ops"]]})
     return traces
+
+
+class _Plan:
+    def __init__(self, base):
+        self.tasks, self.plan, self.meta, self.base = [], {}, {}, base
+
+    def add(self, lang, key, steps, mode, desc):
+        hid = self.base + len(self.tasks)
+        self.tasks.append({"kind": "h", "id": hid, "lang": lang, "mode": mode, "steps": steps})
+        self.plan[hid] = (lang, key, len(steps) == 1, mode)
+        self.meta[hid] = desc
 
 
 def run(ctx):
@@ -1070,59 +1117,51 @@ def run(ctx):
         raise MachineryError("RenamerEnum emitted nothing")
     toucher = skeleton_upj({"feats": ["temporal"], "items": []})
     toucher2 = skeleton_upj({"feats": ["traj"], "items": []})
-    tasks, plan, meta = [], {}, {}
+    nfresh = max(4, int((40 if q else 300) * scale))
+    pl = _Plan(0)
+    sample = set(rng.sample(range(len(cases)), min(nfresh, len(cases))))
     for i, c in enumerate(cases):
         P = skeleton_upj(c)
         desc = {"skeleton": [[x["kind"], uncp(x["orig"])] for x in c["items"]], "feats": c["feats"]}
-        for lang in ("pddl", "anml"):
-            hid = len(tasks)
-            tasks.append({"kind": "h", "id": hid, "lang": lang, "steps": [{"op": "write", "P": P}]})
-            plan[hid] = (lang, ("s", i), True)
-            meta[hid] = desc
-        hid = len(tasks)
         pre = toucher if "temporal" not in c["feats"] else toucher2
-        tasks.append({"kind": "h", "id": hid, "lang": "pddl", "steps": [{"op": "touch", "P": pre}, {"op": "write", "P": P}]})
-        plan[hid] = ("pddl", ("s", i), False)
-        meta[hid] = desc
+        for mode in (["reload", "fresh"] if i in sample else ["reload"]):
+            for lang in ("pddl", "anml"):
+                pl.add(lang, ("s", i), [{"op": "write", "P": P}], mode, desc)
+            pl.add("pddl", ("s", i), [{"op": "touch", "P": pre}, {"op": "write", "P": P}], mode, desc)
     stats = {}
-    results = run_tasks(tasks)
-    traces = assemble(ctx, results, plan, kwlen, stats)
+    results = run_tasks(pl.tasks)
+    traces = assemble(ctx, results, pl.plan, kwlen, stats)
     ctx.cov["evaluations"] += len(results)
-    judge(ctx, "enum", traces, env, meta)
+    judge(ctx, "enum", traces, env, pl.meta)
     nontrivial = sum(1 for t in traces if any(it["name"] != it["orig"] for it in t["ops"][-1]["items"]))
     n_enum = len(traces)
 
     # ---- T3: renamed G2 problems, first use and 2-step histories --------------------------
     n = max(12, int((400 if q else 4000) * scale))
     corpus = gen_corpus(rng, n, kws)
-    tasks, plan, meta = [], {}, {}
-    base = 10000000
+    pl = _Plan(10000000)
+    sample = set(rng.sample(range(len(corpus)), min(nfresh, len(corpus))))
     for i, (P, desc) in enumerate(corpus):
         desc = dict(desc)
         desc["problem"] = P
-        for lang in ("pddl", "anml"):
-            hid = base + len(tasks)
-            tasks.append({"kind": "h", "id": hid, "lang": lang, "steps": [{"op": "write", "P": P}]})
-            plan[hid] = (lang, ("g", i), True)
-            meta[hid] = desc
+        for mode in (["reload", "fresh"] if i in sample else ["reload"]):
+            for lang in ("pddl", "anml"):
+                pl.add(lang, ("g", i), [{"op": "write", "P": P}], mode, desc)
     for i, (P, desc) in enumerate(corpus):
-        # problem i written after another problem of the corpus (biased to temporal / constrained ones)
+        # problem i written after another problem of the corpus (for PDDL: one of another class)
         for lang in ("pddl", "anml"):
             cands = [j for j in range(len(corpus)) if j != i and (lang == "anml" or corpus[j][1]["class"] != corpus[i][1]["class"])]
             if not cands:
                 continue
             j = rng.choice(cands)
-            hid = base + len(tasks)
             d2 = dict(desc)
             d2["problem"] = P
             d2["written_before"] = corpus[j][0]
-            tasks.append({"kind": "h", "id": hid, "lang": lang, "steps": [{"op": "touch", "P": corpus[j][0]}, {"op": "write", "P": P}]})
-            plan[hid] = (lang, ("g", i), False)
-            meta[hid] = d2
-    results = run_tasks(tasks)
-    traces = assemble(ctx, results, plan, kwlen, stats)
+            pl.add(lang, ("g", i), [{"op": "touch", "P": corpus[j][0]}, {"op": "write", "P": P}], "fresh" if i in sample else "reload", d2)
+    results = run_tasks(pl.tasks)
+    traces = assemble(ctx, results, pl.plan, kwlen, stats)
     ctx.cov["evaluations"] += len(results)
-    judge(ctx, "corpus", traces, env, meta)
+    judge(ctx, "corpus", traces, env, pl.meta)
     nontrivial += sum(1 for t in traces if any(it["name"] != it["orig"] for it in t["ops"][-1]["items"]))
     ctx.cov["distinct_nontrivial"] = nontrivial
     ctx.notes["writer_outcomes"] = stats
